@@ -5,12 +5,14 @@
    remapped oracle is [NOracleT cx cy cz u] (TransformedOracleClause).  Eval/OracleEval.v
    mirrors the C++ object structure: [evaluator] = a deck whose ORACLE clauses are answered
    by [oracle_obj]; a transformed oracle owns one evaluator per coordinate tree (built with an
-   EMPTY variable map, as transformed_oracle.cpp does) and the underlying oracle. *)
+   EMPTY variable map, as transformed_oracle.cpp does) and the underlying oracle; every
+   evaluator first runs Tree::optimized on its tree, as Deck::Deck does. *)
 From Coq Require Import Reals List Arith.
 From Coquelicot Require Import Coquelicot.
 From LF Require Import Base.Opcode Base.Num Base.Arena Base.Sem Tree.Build Tree.BuildSem
   Eval.Deck Eval.DeckSem Eval.DeckSemReach Eval.OracleEval Eval.DeckOracleSem Eval.OracleSem
   Stdlib.SExpr Eval.DerivSem.
+From LF Require Base.RInst Tree.Optimize Tree.FlattenSem Tree.OptimizePure.
 Local Open Scope nat_scope.
 
 (* Deck + tape walk with ORACLE clauses: if every oracle clause is answered with its node's
@@ -28,18 +30,60 @@ Theorem C16_deck_with_oracles :
 Proof. exact @deck_correct_oracle_reach. Qed.
 
 (* the tower of per-coordinate evaluators inside TransformedOracle computes the composition
-   with the coordinate maps: point values through the real object structure equal the
-   denotation, for any nesting of transformed oracles, provided the coordinate trees mention
-   no free variable ([coords_closed]; see C16_free_variables_refuted) *)
+   with the coordinate maps: point values through the real object structure (every evaluator
+   starting with Tree::optimized, so lazy remap / apply nodes are allowed) equal the
+   denotation, for any nesting of transformed oracles.  [tower_ok n a root] (Eval/OracleSem.v)
+   packages, per level: [opt_ok] = Tree::optimized returns a live node of a well-formed arena
+   with the same value that reaches only plain nodes and oracle leaves (ASSUMED as a
+   hypothesis; proved for oracle-free sources, see C16_opt_ok_* below), the coordinate trees
+   depend on the point only ([xyz_only]; see C16_free_variables_refuted), and the 4th
+   component of a transformed oracle is an oracle node *)
 Theorem C16_evaluator_correct :
   forall (num : Type) (O : ops num) (osem : nat -> num -> num -> num -> num)
-         (a : arena num) (root fuel fc : nat) (vars : nat -> num) (x y z : num),
-    arena_wf a -> base_ok O a -> root < length a -> 2 * root + 2 <= fuel ->
-    coords_closed fc a root = true ->
-    (forall m, dreach a root m -> canon_at a m) ->
-    (forall m, dreach a root m -> underlying_at a m) ->
+         (n fuel : nat) (a : arena num) (root : nat) (vars : nat -> num) (x y z : num),
+    tower_ok O osem n a root -> n <= fuel ->
     evaluator O osem fuel a root vars x y z = val O osem a root {| ex := x; ey := y; ez := z; ev := vars |}.
 Proof. exact @evaluator_correct. Qed.
+
+Theorem C16_oracle_obj_correct :
+  forall (num : Type) (O : ops num) (osem : nat -> num -> num -> num -> num)
+         (n fuel : nat) (a : arena num) (id : nat) (any : nat -> num) (x y z : num),
+    arena_wf a -> id < length a -> obj_ok O osem n a id -> n <= fuel ->
+    oracle_obj O osem fuel a id x y z = val O osem a id {| ex := x; ey := y; ez := z; ev := any |}.
+Proof. exact @oracle_obj_correct. Qed.
+
+(* non-vacuity, every number type: oracle.remap(min(x,y), y, z), built with a lazy remap node,
+   satisfies [tower_ok] and evaluates to the composition *)
+Theorem C16_tower_nonvacuous :
+  forall (num : Type) (O : ops num) (osem : nat -> num -> num -> num -> num),
+    tower_ok O osem 3 (good_arena O) 8 /\
+    forall fuel vars x y z, 3 <= fuel ->
+      evaluator O osem fuel (good_arena O) 8 vars x y z = osem 0 (o_bin O OP_MIN x y) y z.
+Proof. intros; split; [apply good_tower | intros; apply good_evaluator; assumption]. Qed.
+
+(* what the optimiser theorems give for [opt_ok], over the real instance of C07/C01:
+   oracle-free source trees satisfy it; with oracles everything but the purity of the
+   optimised output follows (for roots with no transformed oracle below, or no lazy node) *)
+Theorem C16_opt_ok_oracle_free :
+  forall (uf : opcode -> R -> R) (bf : opcode -> R -> R -> R),
+    (forall x, bf OP_POW x 1%R = x) -> (forall x, bf OP_NTH_ROOT x 1%R = x) ->
+    forall (osem : nat -> R -> R -> R -> R) (a : arena R) (i fuel : nat) vars x y z,
+      arena_wf a -> base_ok (RInst.R_ops uf bf) a -> i < length a ->
+      OptimizePure.src_ok a i -> FlattenSem.noT a i -> 1 <= fuel ->
+      evaluator (RInst.R_ops uf bf) osem fuel a i vars x y z
+      = val (RInst.R_ops uf bf) osem a i {| ex := x; ey := y; ez := z; ev := vars |}.
+Proof. exact evaluator_oracle_free. Qed.
+
+Theorem C16_opt_ok_of_pure :
+  forall (uf : opcode -> R -> R) (bf : opcode -> R -> R -> R),
+    (forall x, bf OP_POW x 1%R = x) -> (forall x, bf OP_NTH_ROOT x 1%R = x) ->
+    forall (osem : nat -> R -> R -> R -> R) (a : arena R) (i : nat),
+      arena_wf a -> base_ok (RInst.R_ops uf bf) a -> i < length a ->
+      (FlattenSem.noT a i \/ f_remap (flags_of a i) = false) ->
+      (let '(a1, r1) := Optimize.optimized (RInst.R_ops uf bf) a i in
+       forall m, DeckSemReach.reach a1 r1 m -> opure_at a1 m) ->
+      opt_ok (RInst.R_ops uf bf) osem a i.
+Proof. exact opt_ok_of_pure. Qed.
 
 (* wrapping: if the user oracle computes expression e, then ANY context (operations, remap
    chains) built over the oracle denotes the same function as the same context over e *)
@@ -96,23 +140,27 @@ Proof. exact @oracle_ctx_preserves_push. Qed.
 
 (* KNOWN FINDING (known_findings.txt, key oracle:var-in-remap): with a free variable in a
    coordinate tree the real object structure evaluates that variable at 0 — the property's
-   statement fails there; every other hypothesis of C16_evaluator_correct holds *)
+   statement fails there.  Witness: oracle.remap(min(x, v), y, z), v := 3, at x = 5; every
+   part of [tower_ok] holds except [xyz_only] of the optimised coordinate tree *)
 Theorem C16_free_variables_refuted :
   let osem := fun (_ : nat) (x _ _ : R) => x in
   let a := bad_arena RD in
   let vars := fun _ : nat => 3%R in
-  (arena_wf a /\ base_ok RD a /\ (8 < length a)%nat /\ (2 * 8 + 2 <= 18)%nat /\
-   (forall m, dreach a 8 m -> evaluable_at a m) /\
-   (forall m, dreach a 8 m -> canon_at a m) /\
-   (forall m, dreach a 8 m -> underlying_at a m)) /\
-  (forall fc, coords_closed fc a 8 = false) /\
-  evaluator RD osem 18 a 8 vars 0%R 0%R 0%R = 0%R /\
-  val RD osem a 8 {| ex := 0%R; ey := 0%R; ez := 0%R; ev := vars |} = 3%R /\
-  evaluator RD osem 18 a 8 vars 0%R 0%R 0%R <> val RD osem a 8 {| ex := 0%R; ey := 0%R; ez := 0%R; ev := vars |}.
+  Optimize.optimized RD a 8 = (bad_opt RD, 11) /\
+  getn (bad_opt RD) 11 = NOracleT 10 idY idZ 7 /\
+  ~ xyz_only RD osem (bad_opt RD) 10 /\
+  (tower_ok RD osem 3 a 8 <-> xyz_only RD osem (bad_opt RD) 10) /\
+  evaluator RD osem 6 a 8 vars 5%R 0%R 0%R = 0%R /\
+  val RD osem a 8 {| ex := 5%R; ey := 0%R; ez := 0%R; ev := vars |} = 3%R /\
+  evaluator RD osem 6 a 8 vars 5%R 0%R 0%R <> val RD osem a 8 {| ex := 5%R; ey := 0%R; ez := 0%R; ev := vars |}.
 Proof. exact oracle_vars_refuted. Qed.
 
 Print Assumptions C16_deck_with_oracles.
 Print Assumptions C16_evaluator_correct.
+Print Assumptions C16_oracle_obj_correct.
+Print Assumptions C16_tower_nonvacuous.
+Print Assumptions C16_opt_ok_oracle_free.
+Print Assumptions C16_opt_ok_of_pure.
 Print Assumptions C16_oracle_wrap.
 Print Assumptions C16_gradient.
 Print Assumptions C16_interval_sound.
